@@ -15,6 +15,11 @@
      the table scan (`index_scan_eq_filter`);
    * index maintenance on INSERT / UPDATE / DELETE and population at CREATE INDEX keep every index consistent with its
      table (`maintain_preserves_consistency`, `populate_consistent`);
+   * a key deleted and inserted again inside one transaction is found through the index afterwards
+     (`reinsert_after_own_delete_indexed`, `insert_into_free_key_indexed`);
+   * a delivered ordering satisfies a required one exactly if the required one leads it (`ordering_satisfies_iff_prefix`),
+     an input ordered by more keys is ordered by fewer (`sorted_on_prefix`), and what the sort enforcer hands to an
+     operator is the input's rows in the order the operator requires (`enforcer_sound`);
    * the answer does not depend on the statistics the choice among plans was made with (`stats_irrelevant`).
 
   Hypotheses are explicit and decidable: `wfStore` (stored rows have the width and the types of their table, NOT NULL
@@ -24,6 +29,7 @@
   with the flag on.
 -/
 import AxVerif.Lemmas.PlanSql
+import AxVerif.Lemmas.PlanOrd
 namespace AxVerif.Thm.C06
 open AxVerif.Sql AxVerif.Index AxVerif.Plan
 
@@ -273,6 +279,59 @@ theorem populate_consistent (cols : List Nat) (rows : Rows) (hu : KeysUnique col
     ⟨by simp [KeysDistinct], by simp [livePairs, Index.live, rowPairs]⟩ (by simpa using hu)
   simpa [populate] using this
 
+/-! ## Keys re-used inside one transaction (entries with transaction stamps) -/
+
+/-- DELETE of the row with key `k` and INSERT of a row with the same key in ONE transaction (a session, a batch): the
+    delete mark the transaction itself set frees the entry, the new row takes it over.  The transaction — and, once it
+    has committed, every later reader (`reader_after_commit`) — finds exactly the new row under `k` through the index,
+    and every other key as before. -/
+theorem reinsert_after_own_delete_indexed (committed aborted : List Nat) (tid : Nat) (k : List Value) (rid rid' : Nat)
+    (es : List TEntry) (hkeys : (es.map (·.key)).Nodup) (hrow : (k, rid) ∈ tPairs committed tid es)
+    (p : List Value × Nat) :
+    p ∈ tPairs committed tid (tInsert {} committed aborted tid k rid' (tDelete committed tid k es))
+      ↔ (p = (k, rid') ∨ (p ∈ tPairs committed tid es ∧ p.1 ≠ k)) :=
+  delete_then_insert_pairs committed aborted tid k rid rid' es hkeys hrow p
+
+/-- what the transaction sees of the index is what every later reader sees once the transaction has committed -/
+theorem reader_after_commit (committed : List Nat) (tid r : Nat) (es : List TEntry)
+    (hr : ∀ e ∈ es, e.xmin ≠ r ∧ e.xmax ≠ some r) : tPairs (tid :: committed) r es = tPairs committed tid es :=
+  view_after_commit committed tid r es hr
+
+/-- An inserted row always gets an index entry its transaction sees when the key is free: no entry under the key, an
+    entry with a delete mark (whoever set it — the transaction itself included), or the entry of a rolled-back INSERT. -/
+theorem insert_into_free_key_indexed (committed aborted : List Nat) (tid : Nat) (k : List Value) (rid' : Nat)
+    (es : List TEntry) (hfree : ∀ e ∈ es, e.key = k → aborted.contains e.xmin = true ∨ e.xmax.isSome = true) :
+    (k, rid') ∈ tPairs committed tid (tInsert {} committed aborted tid k rid' es) :=
+  insert_gets_entry committed aborted tid k rid' es hfree
+
+/-- one row with key 60, inserted by the committed transaction 0 -/
+def wT : List TEntry := [{ key := [.int 60], rid := 1, xmin := 0 }]
+
+/-- The seeded change "a delete mark counts only if the deleter committed": transaction 1 deletes the row with key 60
+    and inserts a row with key 60 — the old, marked entry is kept, the new row (row id 2) has no entry: after the commit
+    nobody finds it through the index. -/
+theorem reuseNeedsCommittedDelete_witness :
+    (([.int 60] : List Value), 2) ∉ tPairs [0] 1 (tInsert { reuseNeedsCommittedDelete := true } [0] [] 1 [.int 60] 2 (tDelete [0] 1 [.int 60] wT))
+      ∧ (([.int 60] : List Value), 2) ∈ tPairs [0] 1 (tInsert {} [0] [] 1 [.int 60] 2 (tDelete [0] 1 [.int 60] wT)) := by
+  decide
+
+/-- Shipped before 5b107bb: the entry of a rolled-back INSERT (transaction 5) carries no delete mark and was kept: the
+    row inserted afterwards under the same key had no entry. -/
+theorem keepsAbortedInsert_witness :
+    (([.int 60] : List Value), 2) ∉ tPairs [0] 6 (tInsert { keepsAbortedInsert := true } [0] [5] 6 [.int 60] 2 [{ key := [.int 60], rid := 1, xmin := 5 }])
+      ∧ (([.int 60] : List Value), 2) ∈ tPairs [0] 6 (tInsert {} [0] [5] 6 [.int 60] 2 [{ key := [.int 60], rid := 1, xmin := 5 }]) := by
+  decide
+
+/-- The listed finding KF-C06-index-entry-replaced, in the model as in the code: with one entry per key the re-insert
+    REPLACES the entry of the deleted row; if the transaction (1) is then rolled back, a later reader (9) sees the old
+    row in the table again but finds no entry for it. -/
+theorem reinsert_rolled_back_entry_lost_witness :
+    (([.int 60] : List Value), 1) ∈ tPairs [0] 9 wT
+      ∧ (([.int 60] : List Value), 1) ∉ tPairs [0] 9 (tInsert {} [0] [] 1 [.int 60] 2 (tDelete [0] 1 [.int 60] wT)) := by
+  decide
+
+example : (wT.map (·.key)).Nodup ∧ (([.int 60] : List Value), 1) ∈ tPairs [0] 1 wT := by decide
+
 /-! ## Witnesses: each flag of the models breaks the property on a concrete input -/
 
 /-- two tables of different width -/
@@ -368,6 +427,83 @@ theorem indexUpdateKeepsOldKey_witness :
 /-- the specified maintenance on the same update -/
 example : IndexConsistent (maintain {} wIx wRows (.update 2 [.int 2, .int 25] [1])) (apply wRows (.update 2 [.int 2, .int 25] [1])) := by
   decide
+
+/-! ## Orderings and the sort enforcer -/
+
+/-- PhysicalProperties::satisfies: a delivered ordering satisfies a required one if and only if the required keys
+    are the first keys of the delivered ordering (as plain columns, same directions) -/
+theorem ordering_satisfies_iff_prefix (delivered : List DKey) (required : List OrdKey) :
+    satisfies {} delivered required = true ↔ required.map some <+: delivered := by
+  unfold satisfies
+  cases required with
+  | nil => simp
+  | cons k rs => simpa using leads_iff_prefix (k :: rs) delivered
+
+/-- rows ordered by the keys `r ++ t` are ordered by the keys `r` (what makes the prefix rule safe) -/
+theorem sorted_on_prefix (nf : Bool) (r t : List OrdKey) (rows : List Row) :
+    SortedOn nf (r ++ t) rows → SortedOn nf r rows :=
+  sortedOn_prefix nf r t rows
+
+/-- The enforcer of extract_plan.  If the input's rows really are ordered by every column prefix of the ordering it
+    declares, then what the operator above receives is a permutation of the input's rows, ordered by the keys the
+    operator requires; and the ordering it may rely on afterwards is led by the required one. -/
+theorem enforcer_sound (nf : Bool) (delivered : List DKey) (required : List OrdKey) (rows : List Row)
+    (hdel : ∀ p : List OrdKey, p.map some <+: delivered → SortedOn nf p rows) :
+    SortedOn nf required (enforce {} nf delivered required rows)
+      ∧ (enforce {} nf delivered required rows).Perm rows
+      ∧ required.map some <+: enforcedOrdering {} delivered required := by
+  unfold enforce enforcedOrdering
+  by_cases hs : satisfies {} delivered required = true
+  · have hp := (ordering_satisfies_iff_prefix delivered required).mp hs
+    simp only [hs, if_true]
+    exact ⟨hdel required hp, List.Perm.refl _, hp⟩
+  · simp only [hs]
+    exact ⟨sortOn_sorted nf required rows, sortOn_perm nf required rows, List.prefix_refl _⟩
+
+/-- the Sort operator delivers what it declares: every column prefix of its keys -/
+theorem sort_delivers (nf : Bool) (ks p : List OrdKey) (rows : List Row) (hp : p.map some <+: ks.map some) :
+    SortedOn nf p (sortOn nf ks rows) := by
+  obtain ⟨t, ht⟩ := hp
+  have hinj : Function.Injective (some : OrdKey → DKey) := fun a b h => by injection h
+  have : ∃ t', ks = p ++ t' := by
+    refine ⟨ks.drop p.length, ?_⟩
+    have h1 : (ks.map some).take p.length = p.map some := by rw [← ht]; simp
+    have h2 : (ks.take p.length).map some = p.map some := by rw [List.map_take]; exact h1
+    have h3 : ks.take p.length = p := (List.map_inj_right (fun x y h => hinj h)).mp h2
+    conv => lhs; rw [← List.take_append_drop p.length ks]
+    rw [h3]
+  obtain ⟨t', rfl⟩ := this
+  exact sortedOn_prefix nf p t' _ (sortOn_sorted nf (p ++ t') rows)
+
+/-- the zip reading accepts a delivered ordering exactly if one of the two orderings leads the other -/
+theorem ordering_zip_reading (k : OrdKey) (required : List OrdKey) (x : DKey) (ds : List DKey) :
+    (satisfies { orderingPrefixEitherWay := true } (x :: ds) (k :: required) = true
+      ↔ ((k :: required).map some <+: x :: ds ∨ x :: ds <+: (k :: required).map some)) := by
+  have := leadsZip_iff (k :: required) (x :: ds)
+  simpa [satisfies] using this
+
+/-- The demonstration of the seeded change: t(id, a, b) joined to u on a, the result (ordered by `a` only, as the
+    lower merge join declares) joined to v(id, ua, d) on (a, b) = (ua, d).  -/
+def wJoined : List Row :=
+  [[.int 1, .int 1, .int 30], [.int 2, .int 1, .int 10], [.int 4, .int 1, .int 20], [.int 3, .int 2, .int 20], [.int 5, .int 2, .int 10]]
+def wV : List Row :=
+  [[.int 1, .int 1, .int 10], [.int 2, .int 1, .int 20], [.int 3, .int 1, .int 30], [.int 4, .int 2, .int 10], [.int 5, .int 2, .int 20]]
+def wDelivered : List DKey := [some ⟨1, true⟩]
+def wRequired : List OrdKey := [⟨1, true⟩, ⟨2, true⟩]
+
+/-- Seeded change (flag `orderingPrefixEitherWay`): the delivered ordering `[a]` passes for the required `[a, b]`, no
+    Sort is put in, the merge join reads an input that is not ordered by its keys and pairs two of the five rows —
+    the nested-loop reading of the same join, and the merge join over the enforced input of the specification, pair
+    all five. -/
+theorem orderingPrefixEitherWay_witness :
+    satisfies { orderingPrefixEitherWay := true } wDelivered wRequired = true
+      ∧ satisfies {} wDelivered wRequired = false
+      ∧ sortedOnB true [⟨1, true⟩] wJoined = true
+      ∧ sortedOnB true wRequired (enforce { orderingPrefixEitherWay := true } true wDelivered wRequired wJoined) = false
+      ∧ (mergeInner [1, 2] [1, 2] 10 (enforce { orderingPrefixEitherWay := true } true wDelivered wRequired wJoined) wV).length = 2
+      ∧ (nlInner [1, 2] [1, 2] wJoined wV).length = 5
+      ∧ (mergeInner [1, 2] [1, 2] 10 (enforce {} true wDelivered wRequired wJoined) wV).Perm (nlInner [1, 2] [1, 2] wJoined wV) := by
+  refine ⟨by decide, by decide, by decide, by decide, by decide, by decide, by decide⟩
 
 /-! ## The hypotheses are satisfiable -/
 
